@@ -74,18 +74,20 @@ Definition prop_pass (cl : list zpair) (ml : list zpair) : option (list zpair) :
           end
       end) cl acc) ml (Some []).
 
-Fixpoint prop_loop (fuel : nat) (cl ml : list zpair) : option (list zpair) :=
+(* outer None = out of fuel (never observed: the set grows strictly inside a finite universe);
+   inner None = ValueError *)
+Fixpoint prop_loop (fuel : nat) (cl ml : list zpair) : option (option (list zpair)) :=
   match fuel with
-  | O => Some cl   (* unreachable with fuel > number of possible pairs *)
+  | O => None
   | S f => match prop_pass cl ml with
-           | None => None
-           | Some [] => Some cl
+           | None => Some None
+           | Some [] => Some (Some cl)
            | Some nw => prop_loop f (fold_left (fun s p => ps_add p s) nw cl) ml
            end
   end.
 
 Definition vertices (cl ml : list zpair) : list Z :=
   fold_left (fun acc p => zins (fst p) (zins (snd p) acc)) (cl ++ ml) [].
-Definition propagate (cl ml : list zpair) : option (list zpair) :=
+Definition propagate (cl ml : list zpair) : option (option (list zpair)) :=
   let n := length (vertices cl ml) in
-  prop_loop (n * n + 1) (ps_of (map sorted_pair cl)) ml.
+  prop_loop (n * n + 2) (ps_of (map sorted_pair cl)) ml.
